@@ -110,7 +110,14 @@ def positions(ops, steps, root):
     started = False
     mid = False
     sizes = {}
+    wal_seen = False
     for k in range(len(ops) + 1):
+        if not started and wal_seen:
+            # crash during START-UP (WAL file created, status not yet written / synced): nothing is
+            # acknowledged, the model predicts nothing ('*'); restart must still succeed
+            out.append((k, 0, "*"))
+        if k < len(ops) and ops[k].get("path", "").endswith(".walfile"):
+            wal_seen = True
         if started:
             inflight = steps[a] if a < len(steps) else None
             if inflight is None:
@@ -346,6 +353,11 @@ def run(pid, cfg, seed, tier, workdir, log, harness, driver, replay_lines=None):
                 if k > 0 and ops[k - 1]["kind"] == "write" and ops[k - 1]["path"].endswith(".walfile"):
                     if rng.random() < 0.5:
                         must.add(idx)
+                # rare windows: right after the WAL file is truncated (rotation) or created (start-up)
+                if k > 0 and ops[k - 1]["kind"] in ("truncate", "create") and ops[k - 1].get("path", "").endswith(".walfile"):
+                    must.add(idx)
+                if a == 0 and jj == "*" and k < 12:
+                    must.add(idx)
             rest = [i for i in ks if i not in must]
             rng.shuffle(rest)
             ks = sorted(set(list(must)[:sample]) | set(rest[:max(0, sample - len(must))]))
